@@ -81,7 +81,8 @@ package schema
 
 //@ func (*childStreamReader).toStream$1
 //@   props C08 C19 C13
-//@   requires csr != nil && csr.parent != nil && ret != nil
+//@   requires csr != nil && parentOK(csr.parent) && 0 <= csr.index && csr.index < len(csr.parent.subStreamList) && listOK() && ret != nil
+//@   modifies csr.parent.subStreamList[csr.index], csr.parent.closedNum, region("F|schema.cpStreamElement[T]"), region("ONCE"), fresh()
 //@   ghost got int = 0
 //@   ghost sent int = 0
 //@   ghost closedSend int = 0
@@ -94,6 +95,8 @@ package schema
 //@   ensures[writer_closed_once] @C08 closedSend == 1
 //@   ensures[source_closed_once] @C19 closedSrc == 1
 //@   loop 1:
+//@     modifies csr.parent.subStreamList[csr.index], region("F|schema.cpStreamElement[T]"), region("ONCE"), fresh()
+//@     invariant[list] listOK()
 //@     invariant[forwarded_so_far] sent == got && closedSend == 0 && closedSrc == 0
 
 //@ func (*StreamReader).Recv
@@ -130,6 +133,7 @@ package schema
 //@   modifies p.subStreamList[idx], p.closedNum
 //@   ghost srcCloses int = 0
 //@   at call p.sr.Close: ghost srcCloses++
+//@   ensures[cursor_cleared] @C08 p.subStreamList[idx] == nil
 //@   ensures[idempotent] @C08 old(p.subStreamList[idx]) == nil ==> p.closedNum == old(p.closedNum) && srcCloses == 0
 //@   ensures[counted_once] @C08 old(p.subStreamList[idx]) != nil ==> p.subStreamList[idx] == nil && p.closedNum == old(p.closedNum) + 1
 //@   ensures[source_closed_by_last] @C19 srcCloses == (old(p.subStreamList[idx]) != nil && old(p.closedNum) + 1 == len(p.subStreamList) ? 1 : 0)
@@ -154,12 +158,103 @@ package schema
 //@     invariant[children_c] forall(k int :: 0 <= k && k < $i ==> ret[k].csr.index == k)
 //@     invariant[children_d] forall(k int :: 0 <= k && k < $i ==> ret[k].csr.parent == cpsr)
 
+//@ func receiveN$1
+//@   props C08
+//@   requires len(chosenList) == 1 && forall(j int :: 0 <= j && j < 1 ==> 0 <= chosenList[j] && chosenList[j] < len(ss) && ss[chosenList[j]] != nil)
+//@   ensures[listed_source] @C08 exists(j int :: 0 <= j && j < 1 && result0 == chosenList[j])
+//@   ensures[item] result1 != nil
+
+//@ func receiveN$2
+//@   props C08
+//@   requires len(chosenList) == 2 && forall(j int :: 0 <= j && j < 2 ==> 0 <= chosenList[j] && chosenList[j] < len(ss) && ss[chosenList[j]] != nil)
+//@   ensures[listed_source] @C08 exists(j int :: 0 <= j && j < 2 && result0 == chosenList[j])
+//@   ensures[item] result1 != nil
+
+//@ func receiveN$3
+//@   props C08
+//@   requires len(chosenList) == 3 && forall(j int :: 0 <= j && j < 3 ==> 0 <= chosenList[j] && chosenList[j] < len(ss) && ss[chosenList[j]] != nil)
+//@   ensures[listed_source] @C08 exists(j int :: 0 <= j && j < 3 && result0 == chosenList[j])
+//@   ensures[item] result1 != nil
+
+//@ func receiveN$4
+//@   props C08
+//@   requires len(chosenList) == 4 && forall(j int :: 0 <= j && j < 4 ==> 0 <= chosenList[j] && chosenList[j] < len(ss) && ss[chosenList[j]] != nil)
+//@   ensures[listed_source] @C08 exists(j int :: 0 <= j && j < 4 && result0 == chosenList[j])
+//@   ensures[item] result1 != nil
+
+//@ func receiveN$5
+//@   props C08
+//@   requires len(chosenList) == 5 && forall(j int :: 0 <= j && j < 5 ==> 0 <= chosenList[j] && chosenList[j] < len(ss) && ss[chosenList[j]] != nil)
+//@   ensures[listed_source] @C08 exists(j int :: 0 <= j && j < 5 && result0 == chosenList[j])
+//@   ensures[item] result1 != nil
+
+//@ func receiveN
+//@   trusted dispatch through a table of function literals indexed by len(chosenList) (each literal receiveN$k is verified against the same postcondition for its own k; the table lookup is by inspection)
+//@   requires 1 <= len(chosenList) && len(chosenList) <= 5 && forall(j int :: 0 <= j && j < len(chosenList) ==> 0 <= chosenList[j] && chosenList[j] < len(ss) && ss[chosenList[j]] != nil)
+//@   modifies nothing()
+//@   ensures[listed_source] exists(j int :: 0 <= j && j < len(chosenList) && result0 == chosenList[j])
+//@   ensures[item] result1 != nil
+
+//@ spec listed(v int, l []int) bool = exists(j int :: 0 <= j && j < len(l) && l[j] == v)
+//@ spec distinctList(l []int) bool = forall(a int, b int :: 0 <= a && a < b && b < len(l) ==> l[a] != l[b])
+
+//@ func (*multiStreamReader).recv
+//@   props C08
+//@   skip safe frame
+//@   note the write frame of recv is not checked (the loop-frame query over the in-place removal does not finish); the reflect.Select path (more than 5 sources) is executed with reflect calls as arbitrary results: the index it returns is assumed to be a listed source (after-call assumption); panic-freedom of that path is not checked (skip safe)
+//@   requires msr != nil && distinctList(msr.chosenList) && forall(j int :: 0 <= j && j < len(msr.chosenList) ==> 0 <= msr.chosenList[j] && msr.chosenList[j] < len(msr.sts) && msr.sts[msr.chosenList[j]] != nil)
+//@   requires[cases] len(msr.chosenList) > maxSelectNum ==> len(msr.itemsCases) == len(msr.sts)
+//@   modifies msr.chosenList, elems(msr.chosenList), elems(msr.itemsCases), gset("closedSrc")
+//@   ghost gotItem bool = false
+//@   after call receiveN: ghost gotItem = result2
+//@   after call receiveN: gadd closedSrc (result2 ? 0 - 1 : result0)
+//@   after call reflect.Select: assume listed(result0, msr.chosenList)
+//@   after call reflect.Select: ghost gotItem = result2
+//@   after call reflect.Select: gadd closedSrc (result2 ? 0 - 1 : result0)
+//@   ensures[ends_only_when_no_source_left] @C08 !gotItem ==> len(msr.chosenList) == 0
+//@   note not proved: that the entry removed from the list is exactly the source that reported closed (needs an index-shift witness through three quantified facts; the solvers time out), so 'ends only after every source has ended' is decided only as 'end-of-stream is returned only when no source is left in the list, and every iteration that does not return an item shortens the list'
+//@   loop 1:
+//@     modifies msr.chosenList, elems(msr.chosenList), elems(msr.itemsCases), gset("closedSrc")
+//@     decreases len(msr.chosenList)
+//@     invariant[list] distinctList(msr.chosenList) && forall(j int :: 0 <= j && j < len(msr.chosenList) ==> 0 <= msr.chosenList[j] && msr.chosenList[j] < len(msr.sts) && msr.sts[msr.chosenList[j]] != nil)
+//@     invariant[no_item_yet] !gotItem
+//@     invariant[same_array] arr(msr.chosenList) == pre(arr(msr.chosenList)) && off(msr.chosenList) == pre(off(msr.chosenList)) && len(msr.chosenList) <= pre(len(msr.chosenList))
+//@   loop 2:
+//@     modifies msr.chosenList, elems(msr.chosenList)
+//@     invariant[scan] 0 <= $i && forall(j int :: 0 <= j && j < $i ==> msr.chosenList[j] != chosen)
+//@     invariant[untouched] len(msr.chosenList) == pre(len(msr.chosenList)) && arr(msr.chosenList) == pre(arr(msr.chosenList)) && off(msr.chosenList) == pre(off(msr.chosenList)) && forall(j int :: 0 <= j && j < len(msr.chosenList) ==> msr.chosenList[j] == pre(msr.chosenList[j]))
+
 //@ func (*StreamReader).Copy
 //@   props C08
-//@   trusted pending the C08 pass over schema/stream.go
 //@   requires sr != nil
+//@   at call sr.ar.copy: assume sr.ar != nil
+//@   note assumed type invariant of StreamReader (unexported fields, set only by the constructors in this package): typ == readerTypeArray implies ar != nil
+//@   modifies fresh()
 //@   ensures[len] len(result) == (n < 2 ? 1 : n) && fresh(result)
 //@   ensures[one] n < 2 ==> result[0] == sr
+//@   ensures[array_copies] @C08 n >= 2 && sr.typ == readerTypeArray && sr.ar != nil ==> forall(i int :: 0 <= i && i < n ==> result[i] != nil && fresh(result[i]) && result[i].typ == readerTypeArray && result[i].ar != nil && fresh(result[i].ar) && result[i].ar.arr == sr.ar.arr && result[i].ar.index == sr.ar.index)
+//@   ensures[shared_copies] @C08 n >= 2 && sr.typ != readerTypeArray ==> forall(i int :: 0 <= i && i < n ==> result[i] != nil && result[i].typ == readerTypeChild && result[i].csr != nil && result[i].csr.index == i && result[i].csr.parent != nil && result[i].csr.parent == result[0].csr.parent && result[i].csr.parent.sr == sr)
+//@   loop 1:
+//@     modifies fresh()
+//@     invariant[ret] len(ret) == n && fresh(ret)
+//@     invariant[copies] forall(k int :: 0 <= k && k < $i ==> ret[k] != nil && fresh(ret[k]) && ret[k].typ == readerTypeArray && ret[k].ar != nil && fresh(ret[k].ar) && ret[k].ar.arr == sr.ar.arr && ret[k].ar.index == sr.ar.index)
+//@     invariant[source] forall(k int :: 0 <= k && k < len($range) ==> $range[k] != nil && fresh($range[k]) && $range[k].arr == sr.ar.arr && $range[k].index == sr.ar.index)
+
+//@ func (*childStreamReader).recv
+//@   props C08
+//@   requires csr != nil && parentOK(csr.parent) && 0 <= csr.index && csr.index < len(csr.parent.subStreamList)
+//@   requires[list] listOK()
+//@   modifies csr.parent.subStreamList[csr.index], when(csr.parent.subStreamList[csr.index] != nil && !filled(csr.parent.subStreamList[csr.index]), fields(csr.parent.subStreamList[csr.index]), once(csr.parent.subStreamList[csr.index].once)), fresh()
+//@   ensures[list] listOK()
+//@   ensures[own_cursor] @C08 old(csr.parent.subStreamList[csr.index]) != nil ==> box(result0) == box(old(csr.parent.subStreamList[csr.index]).item.chunk) && result1 == old(csr.parent.subStreamList[csr.index]).item.err
+//@   ensures[other_cursors_kept] @C08 forall(j int :: 0 <= j && j < len(csr.parent.subStreamList) && j != csr.index ==> csr.parent.subStreamList[j] == old(csr.parent.subStreamList[j]))
+
+//@ func (*childStreamReader).close
+//@   props C08 C19
+//@   requires csr != nil && parentOK(csr.parent) && 0 <= csr.index && csr.index < len(csr.parent.subStreamList)
+//@   modifies csr.parent.subStreamList[csr.index], csr.parent.closedNum
+//@   ensures[own_cursor_closed] @C08 csr.parent.subStreamList[csr.index] == nil
+//@   ensures[other_cursors_kept] @C08 forall(j int :: 0 <= j && j < len(csr.parent.subStreamList) && j != csr.index ==> csr.parent.subStreamList[j] == old(csr.parent.subStreamList[j]))
 
 // ---------------------------------------------------------------------------------------------------
 // message.go — messages (C14, C17)
